@@ -15,7 +15,6 @@
 package cjk
 
 import (
-	"bytes"
 	"container/ring"
 	"unicode/utf8"
 
@@ -45,10 +44,11 @@ func (s *CJKBigramFilter) Filter(input analysis.TokenStream) analysis.TokenStrea
 
 	for _, tokout := range input {
 		if tokout.Type == analysis.Ideographic {
-			runes := bytes.Runes(tokout.Term)
 			sofar := 0
-			for _, run := range runes {
-				rlen := utf8.RuneLen(run)
+			for sofar < len(tokout.Term) {
+				// the width of the bytes actually consumed: an invalid
+				// byte is one byte wide, not the width of U+FFFD
+				_, rlen := utf8.DecodeRune(tokout.Term[sofar:])
 				token := &analysis.Token{
 					Term:     tokout.Term[sofar : sofar+rlen],
 					Start:    tokout.Start + sofar,
